@@ -51,11 +51,20 @@ Definition s_ifdir : N := 16384.
 Definition s_iflnk : N := 40960.
 Definition perm_bits : N := 4095.
 
-Definition set_owner (uid gid : N) (m : meta) : meta := mkMeta (m_mode m) uid gid (m_mtime m) (m_xattrs m).
-Definition set_mode (mode : N) (m : meta) : meta :=
+(* chown(2): on anything but a directory the kernel also drops S_ISUID, and S_ISGID if the
+   group-execute bit is set (chown_common: ATTR_KILL_SUID | setattr_should_drop_sgid) *)
+Definition s_isuid : N := 2048.
+Definition s_isgid : N := 1024.
+Definition s_ixgrp : N := 8.
+Definition kill_suid_sgid (mode : N) : N :=
+  let m1 := N.ldiff mode s_isuid in
+  if N.eqb (N.land mode s_ixgrp) 0 then m1 else N.ldiff m1 s_isgid.
+Definition set_owner (uid gid : N) (n : node) (m : meta) : meta :=
+  mkMeta (match n with Dir _ _ => m_mode m | _ => kill_suid_sgid (m_mode m) end) uid gid (m_mtime m) (m_xattrs m).
+Definition set_mode (mode : N) (_ : node) (m : meta) : meta :=
   mkMeta (N.lor (N.land (m_mode m) s_ifmt) (N.land mode perm_bits)) (m_uid m) (m_gid m) (m_mtime m) (m_xattrs m).
-Definition set_mtime (t : N) (m : meta) : meta := mkMeta (m_mode m) (m_uid m) (m_gid m) t (m_xattrs m).
-Definition set_xattr (k v : bytes) (m : meta) : meta :=
+Definition set_mtime (t : N) (_ : node) (m : meta) : meta := mkMeta (m_mode m) (m_uid m) (m_gid m) t (m_xattrs m).
+Definition set_xattr (k v : bytes) (_ : node) (m : meta) : meta :=
   mkMeta (m_mode m) (m_uid m) (m_gid m) (m_mtime m)
          ((k, v) :: filter (fun kv => negb (bytes_eqb (fst kv) k)) (m_xattrs m)).
 
